@@ -394,6 +394,10 @@ class Check:
                     self.fail("theorem:" + n, "theorem:" + n,
                               "theorem %s no longer checks against the model tied to the current source" % n,
                               {"theorem": fulln, "lean_errors": errs, "unattributed": other[:5]}, False)
+            elif rc != 0:
+                # the module did not build because a sibling failed: this theorem elaborated without
+                # error, but its axioms cannot be printed (no .olean); the source audit above still applies
+                self.oblige("theorem:" + n, "theorem", True, "elaborated; axiom audit skipped (module has a failing sibling)")
             else:
                 ax = axs.get(fulln)
                 okax = ax is not None and set(ax) <= ALLOWED_AXIOMS
